@@ -245,3 +245,28 @@ def rx_table(rexes, strings):
         for s in strings:
             rows.append([i, s, re.match(cr, s) is not None])
     return rows
+
+
+def revive(obj):
+    """cases that went through JSON (replay files, recorded inputs of listed findings): datetime cells of date columns and
+    date-valued bounds are strings there - turn them back into the datetime / date objects the generators produce"""
+    def parse(v, as_date=False):
+        if not isinstance(v, str):
+            return v
+        for fmt in ('%Y-%m-%d %H:%M:%S.%f', '%Y-%m-%d %H:%M:%S', '%Y-%m-%d'):
+            try:
+                d = dt.datetime.strptime(v, fmt)
+                return d.date() if (as_date or fmt == '%Y-%m-%d') else d
+            except ValueError:
+                pass
+        return v
+    if isinstance(obj, list):
+        return [revive(x) for x in obj]
+    if isinstance(obj, dict):
+        out = {k: revive(v) for k, v in obj.items()}
+        if 'fam' in out and 'cells' in out and FAMILIES.get(out['fam']) == 'date':
+            out['cells'] = [parse(c, as_date=out['fam'] == 'object-date') for c in out['cells']]
+        if out.get('kind') in ('min', 'max') and isinstance(out.get('value'), str) and parse(out['value']) is not out['value']:
+            out['value'] = parse(out['value'])
+        return out
+    return obj
